@@ -78,6 +78,7 @@ type Step struct {
 	CtxMs          int      `json:"ctxMs,omitempty"`
 	Srcs           []string `json:"srcs,omitempty"`
 	AckFlushMs     int      `json:"ackFlushMs,omitempty"`
+	HookReenter    bool     `json:"hookReenter,omitempty"` // openUp: the send / ack hooks call back into their stream (State())
 	Tag            int      `json:"tag,omitempty"`
 	Wait           bool     `json:"wait,omitempty"` // driver waits for completion before the next step
 	Must           bool     `json:"must,omitempty"` // a failure makes the run inconclusive
@@ -518,9 +519,21 @@ func (d *Driver) exec(st *Step, g string) {
 			d.policyOpt(st.Policy),
 			iscp.WithUpstreamSendDataPointsHooker(iscp.SendDataPointsHookerFunc(func(id uuid.UUID, c iscp.UpstreamChunk) {
 				d.rec.Log("HookBefore", "sid", d.b.SidOf(id), "seq", int(c.SequenceNumber), "groups", sortedGroups(c.DataPointGroups))
+				if st.HookReenter {
+					if u := d.up(obj); u != nil {
+						s := u.State()
+						d.rec.Log("HookState", "sid", d.b.SidOf(id), "hook", "before", "total", int(s.TotalDataPoints))
+					}
+				}
 			})),
 			iscp.WithUpstreamReceiveAckHooker(iscp.ReceiveAckHookerFunc(func(id uuid.UUID, r iscp.UpstreamChunkResult) {
 				d.rec.Log("HookAfter", "sid", d.b.SidOf(id), "seq", int(r.SequenceNumber), "code", int(r.ResultCode))
+				if st.HookReenter {
+					if u := d.up(obj); u != nil {
+						s := u.State()
+						d.rec.Log("HookState", "sid", d.b.SidOf(id), "hook", "after", "total", int(s.TotalDataPoints))
+					}
+				}
 			})),
 			iscp.WithUpstreamResumedEventHandler(iscp.UpstreamResumedEventHandlerFunc(func(ev *iscp.UpstreamResumedEvent) {
 				d.rec.Log("UpResumed", "sid", d.b.SidOf(ev.ID))
